@@ -8,7 +8,7 @@ use crate::report::{par_run, Report};
 use crate::rng::Rng;
 use serde_json::json;
 
-pub const RULE: &str = "All 22 indicators x periods {1,2,7,64,512} (+ sampled 1..=512) x stream shapes {strictly increasing, strictly decreasing, alternating, flat, random walk, uniform random, one NaN then non-increasing, +-inf then flat, finite values of magnitude 1e-300..1e300} x scalar/bar feed: after a warm-up of n+2 inputs the thread-local live-heap counter of the harness's counting GlobalAlloc is read, N further inputs (10^5 quick - 1.1*10^6 for the period-7 random-walk runs - and 10^6 thorough) generated in place (no harness allocation in between) are fed, and it is read again: growth must be <= 256 + 64*sum(periods) bytes (allocation count in steady state reported). bincode::serialized_size is sampled at every step of the first 3n+10 inputs and at 64 checkpoints of the long run: always <= the same bound (constancy after the first input reported). A second phase repeats, on one instance per (indicator, period in {1,7,64,65,200,512}), R cycles of {feed n+5 inputs, reset} / {clone, drop} / {serialize, deserialize, swap}: live heap after the cycles must be within the same bound of live heap after the first cycle (a per-reset, per-clone or per-restore leak grows linearly). Non-trivial: every run (stream far longer than the window); distinct by construction (indicator, period, shape, feed).";
+pub const RULE: &str = "All 22 indicators x periods {1,2,7,64,512} (+ sampled 1..=512) x stream shapes {strictly increasing, strictly decreasing, alternating, flat, random walk, uniform random, one NaN then non-increasing, +-inf then flat, finite values of magnitude 1e-300..1e300, a feed of recurring bad ticks (crossed bars, non-finite fields, both at once)} x scalar/bar feed: after a warm-up of n+2 inputs the thread-local live-heap counter of the harness's counting GlobalAlloc is read, N further inputs (10^5 quick - 1.1*10^6 for the period-7 random-walk runs - and 10^6 thorough) generated in place (no harness allocation in between) are fed, and it is read again: growth must be <= 256 + 64*sum(periods) bytes (allocation count in steady state reported). bincode::serialized_size is sampled at every step of the first 3n+10 inputs and at 64 checkpoints of the long run: always <= the same bound (constancy after the first input reported). A second phase repeats, on one instance per (indicator, period in {1,7,64,65,200,512}), R cycles of {feed n+5 inputs, reset} / {clone, drop} / {serialize, deserialize, swap}: live heap after the cycles must be within the same bound of live heap after the first cycle (a per-reset, per-clone or per-restore leak grows linearly). Non-trivial: every run (stream far longer than the window); distinct by construction (indicator, period, shape, feed).";
 
 #[derive(Clone, Copy, Debug, PartialEq)]
 pub enum Shape {
@@ -24,8 +24,12 @@ pub enum Shape {
     InfThenFlat,
     /// finite values of any magnitude 1e-300..1e300 and sign (formats whose size depends on the value)
     WideMagnitude,
+    /// a feed that keeps producing broken data: crossed bars (high < low), non-finite fields, bars that are
+    /// both at once, NaN / inf / f64::MAX scalars — all the way through, not just at the start (anything
+    /// an indicator might be tempted to remember about bad input)
+    BadTicks,
 }
-pub const SHAPES: [Shape; 9] = [Shape::Increasing, Shape::Decreasing, Shape::Alternating, Shape::Flat, Shape::Walk, Shape::Uniform, Shape::NanThenDecreasing, Shape::InfThenFlat, Shape::WideMagnitude];
+pub const SHAPES: [Shape; 10] = [Shape::Increasing, Shape::Decreasing, Shape::Alternating, Shape::Flat, Shape::Walk, Shape::Uniform, Shape::NanThenDecreasing, Shape::InfThenFlat, Shape::WideMagnitude, Shape::BadTicks];
 
 pub struct ShapeGen {
     shape: Shape,
@@ -71,6 +75,17 @@ impl ShapeGen {
                     v
                 }
             }
+            Shape::BadTicks => {
+                let base = 50.0 + ((self.i * 13) % 17) as f64;
+                match self.i % 23 {
+                    5 => f64::NAN,
+                    9 => f64::INFINITY,
+                    14 => f64::NEG_INFINITY,
+                    19 => f64::MAX,
+                    21 => -0.0,
+                    _ => base,
+                }
+            }
             Shape::InfThenFlat => match self.i {
                 2 => f64::INFINITY,
                 4 => f64::NEG_INFINITY,
@@ -86,6 +101,19 @@ impl ShapeGen {
         }
         match self.shape {
             Shape::Walk | Shape::Uniform => In::B(self.bars.next()),
+            Shape::BadTicks => {
+                self.i += 1;
+                let c = 50.0 + ((self.i * 13) % 17) as f64;
+                let good = Bar { o: c, h: c + 0.5, l: c - 0.25, c, v: 1.0 + (self.i % 5) as f64 };
+                In::B(match self.i % 19 {
+                    2 | 7 | 11 => Bar { h: good.l, l: good.h, ..good },          // crossed
+                    4 => Bar { l: f64::INFINITY, ..good },                        // crossed and non-finite at once
+                    9 => Bar { h: f64::NAN, ..good },
+                    13 => Bar { c: f64::NEG_INFINITY, ..good },
+                    16 => Bar { v: f64::NAN, l: f64::MAX, ..good },
+                    _ => good,
+                })
+            }
             _ => {
                 let c = self.next_price();
                 In::B(Bar { o: c, h: c + 0.5, l: c - 0.25, c, v: 1.0 + (self.i % 5) as f64 })
